@@ -3,11 +3,13 @@
 
 * `addDecl`            ↔ `Namespace::add_declaration` (occupied entry → `NameClash`, the first one stays)
 * `addOtherPred`       ↔ `Namespace::add_other_pred`
-* `ownTable`           ↔ `gather_declarations_file` (function declarations of one file)
+* `ownTable`, `ownKids` ↔ `gather_declarations_file` (functions, enums, interfaces of one file; every enum /
+                         interface also gets a child namespace: `add_namespace`, which overwrites on collision)
 * `effective`          ↔ `resolve_imports_file` (builtins + intrinsics inserted directly, then the prelude,
                          the file itself and every `use` item in source order: glob / inclusion list /
                          `except` list / `as` alias)
-* `SymTab`, `lookup`, `extend`, `newScope` ↔ `SymbolTable` (a chain of hash maps, innermost first)
+* `SymTab`, `lookup`, `extend`, `newScope` ↔ `SymbolTable` (a chain of hash maps, innermost first);
+                         `resolvePat` ↔ `lookup_namespace` for qualified variant patterns (namespaces live at file level only)
 * `resolveStmts`       ↔ `resolve_names_stmt/expr/pat` on the statement forms that bind or use names
 
 Names are an arbitrary type `ν` with decidable equality (the driver uses `String`).
@@ -25,6 +27,9 @@ inductive Decl (ν : Type) where
   | builtin (name : ν)                    -- builtin type / intrinsic operation
   | prelude (name : ν)                    -- declaration of prelude.abra
   | loc (id : Nat)                        -- local binding number `id` (let / for / match / parameter)
+  | enum_ (file : Nat) (idx : Nat) (name : ν)     -- the `idx`-th type definition of `file`, an enum
+  | iface (file : Nat) (idx : Nat) (name : ν)     -- …, an interface
+  | variant (file : Nat) (idx : Nat) (ename : ν) (v : ν)   -- variant `v` of that enum
 deriving DecidableEq, Repr
 
 abbrev Table (ν : Type) := List (ν × Decl ν)
@@ -72,9 +77,18 @@ inductive Stmt (ν : Type) where
   | forv (x : ν) (id : Nat) (body : List (Stmt ν))  -- for x in [<lambda id>] { … }
   | matchv (x : ν) (id : Nat) (body : List (Stmt ν))   -- match <lambda id> { x -> { … } }
   | lam (x : ν) (id : Nat) (body : List (Stmt ν))      -- ((x) -> { … })(<lambda id>)
+  | pmatch (pre : Option ν) (ty : ν) (v : ν)           -- match … { [pre.]ty.v -> … }   (qualified variant pattern)
+  | euse (pre : Option ν) (ty : ν) (v : ν)             -- [pre.]ty.v                     (variant as an expression)
+
+/-- an enum (`members` = variants) or an interface (`members` = methods) -/
+structure TypeD (ν : Type) where
+  name : ν
+  isEnum : Bool
+  members : List ν
 
 structure FileD (ν : Type) where
   decls : List ν                  -- names of the top-level functions, in source order
+  types : List (TypeD ν)          -- enums and interfaces, in source order (after the functions)
   imports : List (Import ν)       -- `use` items, in source order
   probe : List (Stmt ν)           -- body of a function of this file (function scope)
   top : List (Stmt ν)             -- top-level statements (main file)
@@ -84,40 +98,78 @@ structure World (ν : Type) where
   prelude : List ν                -- names declared by prelude.abra
   files : List (FileD ν)
 
-/-- `gather_declarations_file` restricted to function items -/
-def gather (file : Nat) : List ν → Table ν → Table ν × List ν
+/-- `gather_declarations_file`: insert each (name, declaration) with `add_declaration` -/
+def gather : Table ν → Table ν → Table ν × List ν
   | [], t => (t, [])
-  | x :: xs, t =>
-    let r := addDecl t x (Decl.fn file x)
-    let r2 := gather file xs r.1
+  | (x, d) :: xs, t =>
+    let r := addDecl t x d
+    let r2 := gather xs r.1
     (r2.1, r.2 ++ r2.2)
 
-def ownTable (w : World ν) (file : Nat) : Table ν × List ν :=
+def typeDecl (file idx : Nat) (t : TypeD ν) : Decl ν :=
+  if t.isEnum then Decl.enum_ file idx t.name else Decl.iface file idx t.name
+
+def typeEntriesAux (file : Nat) : Nat → List (TypeD ν) → Table ν
+  | _, [] => []
+  | i, t :: ts => (t.name, typeDecl file i t) :: typeEntriesAux file (i + 1) ts
+
+/-- the type definitions of a file as (name, declaration) pairs, in source order -/
+def typeEntries (w : World ν) (file : Nat) : Table ν :=
   match w.files[file]? with
-  | some f => gather file f.decls []
-  | none => ([], [])
+  | some f => typeEntriesAux file 0 f.types
+  | none => []
+
+def fnEntries (w : World ν) (file : Nat) : Table ν :=
+  match w.files[file]? with
+  | some f => f.decls.map fun x => (x, Decl.fn file x)
+  | none => []
+
+/-- everything a file declares, in source order -/
+def ownEntries (w : World ν) (file : Nat) : Table ν := fnEntries w file ++ typeEntries w file
+
+def ownTable (w : World ν) (file : Nat) : Table ν × List ν := gather (ownEntries w file) []
+
+/-- `Namespace::add_namespace` for a list of entries: a later entry replaces an earlier one -/
+def putAll (t : Table ν) : Table ν → Table ν
+  | [] => t
+  | (x, d) :: rest => putAll (t.put x d) rest
+
+/-- child namespaces of a file's own namespace: one per enum / interface, keyed by its name and
+    represented by the declaration that owns it -/
+def ownKids (w : World ν) (file : Nat) : Table ν := putAll [] (typeEntries w file)
+
+/-- members (variants / methods) of the type definition a declaration stands for -/
+def membersOf (w : World ν) (file idx : Nat) : List ν :=
+  match w.files[file]? with
+  | some f =>
+    match f.types[idx]? with
+    | some t => t.members
+    | none => []
+  | none => []
 
 /-- effective namespace of a file -/
 structure Eff (ν : Type) where
   table : Table ν                 -- declarations
-  children : List (ν × Nat)       -- namespaces: alias ↦ file
+  kids : Table ν                  -- child namespaces (`namespaces`), each represented by its owning declaration
   clashes : List ν                -- NameClash diagnostics, in emission order
   badImports : Nat                -- imports of files that do not exist
 
 def applyImport (w : World ν) (file : Nat) (e : Eff ν) : Import ν → Eff ν
   | .glob m =>
     let r := addOtherPred e.table (ownTable w m).1 (fun _ => true)
-    { e with table := r.1, clashes := e.clashes ++ r.2 }
+    { e with table := r.1, clashes := e.clashes ++ r.2,
+             kids := putAll e.kids (ownKids w m) }
   | .incl m names =>
     let r := addOtherPred e.table (ownTable w m).1 (fun x => names.contains x)
-    { e with table := r.1, clashes := e.clashes ++ r.2 }
+    { e with table := r.1, clashes := e.clashes ++ r.2,
+             kids := putAll e.kids ((ownKids w m).filter (fun c => names.contains c.1)) }
   | .excl m names =>
     let r := addOtherPred e.table (ownTable w m).1 (fun x => !names.contains x)
-    { e with table := r.1, clashes := e.clashes ++ r.2 }
+    { e with table := r.1, clashes := e.clashes ++ r.2,
+             kids := putAll e.kids ((ownKids w m).filter (fun c => !names.contains c.1)) }
   | .as_ m p =>
     let r := addDecl e.table p (Decl.alias file p m)
-    { e with table := r.1, clashes := e.clashes ++ r.2,
-             children := (p, m) :: e.children.filter (fun c => c.1 ≠ p) }
+    { e with table := r.1, clashes := e.clashes ++ r.2, kids := e.kids.put p (Decl.alias file p m) }
   | .missing => { e with badImports := e.badImports + 1 }
 
 def applyImports (w : World ν) (file : Nat) : List (Import ν) → Eff ν → Eff ν
@@ -135,7 +187,8 @@ def preludeTable (w : World ν) : Table ν := w.prelude.map fun x => (x, Decl.pr
 def effective (w : World ν) (file : Nat) : Eff ν :=
   let r1 := addOtherPred (builtinTable w) (preludeTable w) (fun _ => true)
   let r2 := addOtherPred r1.1 (ownTable w file).1 (fun _ => true)
-  let e : Eff ν := { table := r2.1, children := [], clashes := r1.2 ++ r2.2, badImports := 0 }
+  let e : Eff ν := { table := r2.1, kids := putAll [] (ownKids w file),
+                     clashes := r1.2 ++ r2.2, badImports := 0 }
   match w.files[file]? with
   | some f => applyImports w file f.imports e
   | none => e
@@ -178,35 +231,71 @@ def memberOf (w : World ν) (x : ν) : Option (Decl ν) → Res ν
 def resolveQualified (w : World ν) (st : SymTab ν) (q x : ν) : Res ν :=
   memberOf w x (lookup st q)
 
+/-- variant `v` of the enum a declaration stands for (`EnumVariant` lookup in the enum's namespace /
+    `resolve_names_member_helper` on `Declaration::Enum`) -/
+def variantOf (w : World ν) (v : ν) : Option (Decl ν) → Res ν
+  | some (Decl.enum_ m i n) => if (membersOf w m i).contains v then Res.to (Decl.variant m i n v) else Res.unresolved
+  | _ => Res.unresolved
+
+/-- child namespace `ty` of whatever namespace the prefix `p` denotes -/
+def kidOfPrefix (w : World ν) (ty : ν) : Option (Decl ν) → Option (Decl ν)
+  | some (Decl.alias _ _ m) => (ownKids w m).get ty
+  | _ => none
+
+/-- qualified variant pattern `[pre.]ty.v`: `symbol_table.lookup_namespace(prefixes[0])`, then the
+    remaining prefixes through `namespaces`, then the tag among the namespace's declarations.
+    `kids` are the file-level namespaces (locals never shadow a namespace). -/
+def resolvePat (w : World ν) (kids : Table ν) (pre : Option ν) (ty v : ν) : Res ν :=
+  match pre with
+  | none => variantOf w v (kids.get ty)
+  | some p => variantOf w v (kidOfPrefix w ty (kids.get p))
+
+/-- declaration `ty` among the declarations of whatever the prefix `p` resolved to -/
+def declOfPrefix (w : World ν) (ty : ν) : Option (Decl ν) → Option (Decl ν)
+  | some (Decl.alias _ _ m) => (ownTable w m).1.get ty
+  | _ => none
+
+/-- variant expression `[pre.]ty.v` given how identifiers resolve -/
+def enumExprWith (w : World ν) (look : ν → Option (Decl ν)) (pre : Option ν) (ty v : ν) : Res ν :=
+  match pre with
+  | none => variantOf w v (look ty)
+  | some p => variantOf w v (declOfPrefix w ty (look p))
+
+/-- variant expression `[pre.]ty.v`: the type name resolves like any identifier (declarations) -/
+def resolveEnumExpr (w : World ν) (st : SymTab ν) (pre : Option ν) (ty v : ν) : Res ν :=
+  enumExprWith w (lookup st) pre ty v
+
 mutual
 /-- `resolve_names_stmt`: returns the table after the statement (bindings made in the current
     scope persist) and the resolutions of the uses in textual order.
     `forScoped` = the for-loop pattern is bound inside the loop's own scope (lexical scoping);
     with `false` it is bound in the enclosing scope, as resolve.rs does today. -/
-def resolveStmt (w : World ν) (forScoped : Bool) (st : SymTab ν) : Stmt ν → SymTab ν × List (Res ν)
+def resolveStmt (w : World ν) (forScoped : Bool) (kids : Table ν) (st : SymTab ν) : Stmt ν → SymTab ν × List (Res ν)
   | .letv x id => (extend st x (Decl.loc id), [])
   | .use x =>
     (st, [Res.ofOption (lookup st x)])
   | .quse q x => (st, [resolveQualified w st q x])
-  | .block body => (st, (resolveStmts w forScoped (newScope st) body).2)
+  | .block body => (st, (resolveStmts w forScoped kids (newScope st) body).2)
   | .forv x id body =>
     if forScoped then
       -- one new scope holds the pattern and the body's own bindings
-      (st, (resolveStmts w forScoped (extend (newScope st) x (Decl.loc id)) body).2)
+      (st, (resolveStmts w forScoped kids (extend (newScope st) x (Decl.loc id)) body).2)
     else
       let st1 := extend st x (Decl.loc id)
-      (st1, (resolveStmts w forScoped (newScope st1) body).2)
+      (st1, (resolveStmts w forScoped kids (newScope st1) body).2)
   | .matchv x id body =>
     -- arm: new scope, pattern binds in it, the arm's block opens another one
-    (st, (resolveStmts w forScoped (newScope (extend (newScope st) x (Decl.loc id))) body).2)
+    (st, (resolveStmts w forScoped kids (newScope (extend (newScope st) x (Decl.loc id))) body).2)
   | .lam x id body =>
-    (st, (resolveStmts w forScoped (newScope (extend (newScope st) x (Decl.loc id))) body).2)
+    (st, (resolveStmts w forScoped kids (newScope (extend (newScope st) x (Decl.loc id))) body).2)
+  | .pmatch pre ty v => (st, [resolvePat w kids pre ty v])
+  | .euse pre ty v => (st, [resolveEnumExpr w st pre ty v])
 
-def resolveStmts (w : World ν) (forScoped : Bool) (st : SymTab ν) : List (Stmt ν) → SymTab ν × List (Res ν)
+def resolveStmts (w : World ν) (forScoped : Bool) (kids : Table ν) (st : SymTab ν) : List (Stmt ν) → SymTab ν × List (Res ν)
   | [] => (st, [])
   | s :: ss =>
-    let r := resolveStmt w forScoped st s
-    let r2 := resolveStmts w forScoped r.1 ss
+    let r := resolveStmt w forScoped kids st s
+    let r2 := resolveStmts w forScoped kids r.1 ss
     (r2.1, r.2 ++ r2.2)
 end
 
@@ -217,13 +306,13 @@ def fileSymTab (w : World ν) (file : Nat) : SymTab ν := [(effective w file).ta
     scope holding the parameter (`z`, never used by the generated bodies) and a block scope -/
 def resolveProbe (w : World ν) (forScoped : Bool) (file : Nat) : List (Res ν) :=
   match w.files[file]? with
-  | some f => (resolveStmts w forScoped (newScope (newScope (fileSymTab w file))) f.probe).2
+  | some f => (resolveStmts w forScoped (effective w file).kids (newScope (newScope (fileSymTab w file))) f.probe).2
   | none => []
 
 /-- top-level statements extend the file-level scope itself -/
 def resolveTop (w : World ν) (forScoped : Bool) (file : Nat) : List (Res ν) :=
   match w.files[file]? with
-  | some f => (resolveStmts w forScoped (fileSymTab w file) f.top).2
+  | some f => (resolveStmts w forScoped (effective w file).kids (fileSymTab w file) f.top).2
   | none => []
 
 end Abra.Names
